@@ -2,6 +2,7 @@
 package c17
 
 import (
+	"strings"
 	"bytes"
 	"context"
 	"errors"
@@ -34,7 +35,7 @@ type endSpec struct {
 }
 
 type scenario struct {
-	Flavor   string     `json:"flavor"` // netctx-stream | connctx-stream | netctx-packet
+	Flavor   string     `json:"flavor"` // netctx-stream | connctx-stream | netctx-packet | netctx-msg | connctx-msg (Conn wrappers over a message-preserving pipe)
 	Capacity int        `json:"capacity"`
 	MaxChunk int        `json:"maxChunk"`
 	Ends     [2]endSpec `json:"ends"`
@@ -46,8 +47,8 @@ type scenario struct {
 var gaps = []int64{0, 0, 1, 1000, 50000, 1000000}
 
 func gen(r *harn.Rng, tier string) interface{} {
-	sc := &scenario{Flavor: []string{"netctx-stream", "connctx-stream", "netctx-packet"}[r.Intn(3)]}
-	if sc.Flavor == "netctx-packet" {
+	sc := &scenario{Flavor: []string{"netctx-stream", "connctx-stream", "netctx-packet", "netctx-stream", "connctx-stream", "netctx-packet", "netctx-msg", "connctx-msg"}[r.Intn(8)]}
+	if sc.Flavor == "netctx-packet" || strings.HasSuffix(sc.Flavor, "-msg") {
 		sc.Capacity = r.Pick(1, 2, 8)
 	} else {
 		sc.Capacity = r.Pick(4, 16, 100, 4096)
@@ -139,6 +140,22 @@ func run(env *simrt.Env, sci interface{}) {
 	var streams [2]*simnet.Stream
 	var packets [2]*simnet.Packet
 	switch sc.Flavor {
+	case "netctx-msg", "connctx-msg":
+		a, b := simnet.PacketPipe(sc.Capacity)
+		packets = [2]*simnet.Packet{a, b}
+		for i, p := range packets {
+			p := p
+			if sc.Flavor == "connctx-msg" {
+				w := connctx.New(p)
+				ends[i] = end{read: w.ReadContext, write: w.WriteContext}
+			} else {
+				w := netctx.NewConn(p)
+				ends[i] = end{read: w.ReadContext, write: w.WriteContext}
+			}
+			ends[i].deadlines = p.Deadlines
+			ends[i].injectErr = func() { p.InjectSetDeadlineError(simnet.ErrInjected) }
+			ends[i].closeStub = func() { _ = p.Close() }
+		}
 	case "netctx-packet":
 		a, b := simnet.PacketPipe(sc.Capacity)
 		packets = [2]*simnet.Packet{a, b}
@@ -402,13 +419,12 @@ func run(env *simrt.Env, sci interface{}) {
 		}
 	}
 	// data conservation: what the wrapper reported equals what the wrapped connection moved
+	// (also after an injected SetDeadline failure: a wrapper that cannot interrupt an operation
+	// may report an error, never a byte count that differs from what was transferred)
 	for e := 0; e < 2; e++ {
-		if faulty[0] || faulty[1] {
-			break
-		}
 		if len(sc.Ends[e].Reads2) > 0 || len(sc.Ends[e].Writes2) > 0 {
 			// two workers on one direction: the harness cannot order their reports; totals must still agree
-			if sc.Flavor != "netctx-packet" {
+			if packets[e] == nil {
 				_, _, received, moved := streams[e].Snapshot()
 				nR, nW, allW := 0, 0, true
 				for _, r := range results[e][0] {
@@ -434,15 +450,33 @@ func run(env *simrt.Env, sci interface{}) {
 			}
 			continue
 		}
-		if sc.Flavor == "netctx-packet" {
+		if packets[e] != nil {
+			allRecv, _, _, _ := packets[e].Snapshot()
+			_ = allRecv
 			_, _, received, moved := packets[e].Snapshot()
+			// every message the wrapped connection handed over is reported by a call that returned
+			// without error - except that a call which ended with its context's error may have
+			// taken one along (an empty message and "zero bytes" cannot be told apart there)
+			okReads, ctxReads := 0, 0
+			for _, r := range results[e][0] {
+				switch {
+				case r.returned && (r.err == nil || r.n > 0):
+					okReads++
+				case !r.returned || r.ctx.Err() != nil || faulty[e]:
+					ctxReads++
+				}
+			}
+			if len(received) > okReads+ctxReads {
+				env.Fail("C17/read-data-lost", "end %d: the wrapped connection handed %d messages (empty ones included) to the wrapper, but only %d calls returned a message and %d ended with their context's error or are still pending", e, len(received), okReads, ctxReads)
+				return
+			}
 			// empty datagrams (and datagrams truncated into an empty buffer) carry no bytes: a call
 			// that reports (0, context error) for one of them has "transferred none" in the
 			// property's sense, so they are left out on both sides of the comparison
 			received, moved = nonEmpty(received), nonEmpty(moved)
 			var repR, repW [][]byte
 			for _, r := range results[e][0] {
-				if r.returned && r.err == nil && len(r.data) > 0 {
+				if r.returned && len(r.data) > 0 { // n > 0 counts whatever the error says
 					repR = append(repR, r.data)
 				}
 			}
